@@ -144,7 +144,7 @@ COMBO_FILES = {
     "thorough": ("examples/csv/csv.pest", "examples/ini/ini.pest", "tests/grammars/lists.pest", "tests/grammars/http.pest", "examples/calculator/calculator.pest",
                  "examples/calculator/grammar_encoded_prec.pest", "examples/json/json.pest", "tests/grammars/json.pest", "synthetic:stack", "synthetic:keywords"),
 }
-COMBO_KINDS = {"quick": ("dup-choice", "never-seq", "never-not", "extract"), "thorough": BASIC}
+COMBO_KINDS = {"quick": ("never-seq", "never-not", "extract"), "thorough": BASIC}
 
 
 def wrap(kind, src, fresh):
@@ -355,7 +355,7 @@ def run(tier: str) -> int:
         "rule": "for each bundled grammar (tests: json, toml, sql, http, lists; examples: json, calculator x2, jsonpath, ini, csv) and two small grammars written for this check "
                 "(stack operations that replace an entry, fences and indentation; case-insensitive keywords and stops, the skip idiom, tags, bounded repetitions, atomic and compound-atomic rules, implicit whitespace) every site of the meta-grammar's parse tree of the file - every untagged term (as a whole, and its operand alone when it carries prefix or postfix operators), every rule-body / parenthesised / PUSH expression, "
                 "every run of >= 3 sequence terms or alternatives - x the rewrite kinds: (e); (e) | (e); ((e) ~ NEVER) | (e); (!(e) ~ NEVER) | (e); extraction into a fresh silent rule; every re-association split of ~ and | runs. "
-                "Combinations: (a) nested - a second rewrite applied to the result of a first one at the same site, every ordered pair of kinds, on the smaller grammars (quick: csv, ini, lists with four kinds; thorough: also http, both calculators, both json with five kinds); "
+                "Combinations: (a) nested - a second rewrite applied to the result of a first one at the same site, every ordered pair of kinds, on the smaller grammars (quick: csv, ini, lists and the two synthetic grammars with three kinds; thorough: also http, both calculators, both json with five kinds); "
                 "(b) at once - one kind applied simultaneously to every literal (string, insensitive string, character range) of the file, all files; (c) thorough: every two nearby non-overlapping sites both rewritten (six kind pairs). "
                 "Inputs: the repository's example files (thorough), the inputs of the pest-derived tests, short hand-written valid and invalid inputs per start rule, and every proper prefix of each short input (thorough: also every single-character deletion). "
                 "Oracle: same outcome and same tree as the unrewritten grammar in the same mode (failure positions are not compared: a NEVER literal legitimately moves them). "
